@@ -205,6 +205,21 @@ def boundary_allele_file(d):
     return vcfgen.make_indexed(d, "alleles", vcfgen.vcf_text(hdr, recs, ("S0", "S1", "S2")))
 
 
+def f8_class(case, name, s1, s0):
+    """The GT rows carry the phase flag as their last column.  For a record in which every call has fewer than two
+    alleles cyvcf2 reports an indeterminate phase bit for the last sample (known finding F8), so two runs may
+    disagree on whether a 0 or a 1 occurs in that column -- and with it on the GT summary's minimum / maximum when the
+    alleles themselves do not already span {0, 1}.  Only that exact situation is classified."""
+    if name != "FORMAT/GT" or s1.max_number != s0.max_number:
+        return None
+    haploid = any(x["gt"] is not None and all(len(al) < 2 for al, _ in x["gt"]) for x in case["recs"])
+    lo = {s1.min_value, s0.min_value}
+    hi = {s1.max_value, s0.max_value}
+    if haploid and lo <= {0, 1} and (hi <= {0, 1} or len(hi) == 1):
+        return "haploid_last_sample_phased"
+    return None
+
+
 def summary_check(ctx, doc, store):
     """per-field summaries against the stored values themselves: max_number is the widest stored
     record (missing entries included: they occupy a slot), integer min/max bound every stored
@@ -355,7 +370,7 @@ def part_b(ctx):
             for name, fld in stw.fields.items():
                 s1, s0 = fld.vcf_field.summary, ref.fields[name].vcf_field.summary
                 if (s1.max_number, s1.min_value, s1.max_value) != (s0.max_number, s0.min_value, s0.max_value):
-                    ctx.fail(dict(docw, field=name), dict(got=str(s1), ref=str(s0)), "field summary depends on partitioning / on which process exploded a partition")
+                    ctx.fail(dict(docw, field=name), {"got": str(s1), "ref": str(s0), "class": f8_class(case, name, s1, s0)}, "field summary depends on partitioning / on which process exploded a partition")
             shutil.rmtree(outw, ignore_errors=True)
             for cfg in range(ctx.n(2, 4)):
                 nparts = r.choice([1, 2, 3, 5, 50])
@@ -387,7 +402,7 @@ def part_b(ctx):
                             break
                     s1, s0 = fld.vcf_field.summary, ref.fields[name].vcf_field.summary
                     if (s1.max_number, s1.min_value, s1.max_value) != (s0.max_number, s0.min_value, s0.max_value):
-                        ctx.fail(dict(doc, field=name), dict(got=str(s1), ref=str(s0)), "field summary depends on partitioning / chunking")
+                        ctx.fail(dict(doc, field=name), {"got": str(s1), "ref": str(s0), "class": f8_class(case, name, s1, s0)}, "field summary depends on partitioning / chunking")
                 shutil.rmtree(out, ignore_errors=True)
         finally:
             shutil.rmtree(d, ignore_errors=True)
